@@ -318,9 +318,9 @@ pub fn drain(s: &mut In) -> bool {
         }
     }
     if s.cfg.judge & J_C16 != 0 && !s.probe_sent && s.conn.log.stops().is_empty() {
-        s.probe_sent = true;
         s.probe_step = step();
-        return crate::c16::send_probe(s);
+        s.probe_sent = crate::c16::send_probe(s);
+        return s.probe_sent;
     }
     false
 }
